@@ -94,6 +94,7 @@ type BuildCtx struct {
 	BlockTime time.Time
 	DidSeq    func(did string) (uint64, bool) // current sequence per the model (false: unknown DID)
 	Built     func(tx, msg int) sdk.Msg       // previously built messages (for reuse/replay)
+	DidDoc    func(did string) *didtypes.DIDDocument // currently stored document per the model (nil: none)
 }
 
 func coins(cs []CoinSpec) sdk.Coins {
@@ -236,7 +237,9 @@ func (bc *BuildCtx) Build(s *MsgSpec) sdk.Msg {
 		return &didtypes.MsgCreateDIDRequest{Did: s.f("did"), Document: doc, VerificationMethodId: mid, Signature: sig, FromAddress: s.f("from")}
 	case "did.Update":
 		var doc *didtypes.DIDDocument
-		if !s.NilDoc {
+		if s.f("same_doc") != "" && bc.DidDoc != nil && bc.DidDoc(s.f("did")) != nil {
+			doc = cloneDoc(bc.DidDoc(s.f("did"))) // a no-op update: exactly the stored document
+		} else if !s.NilDoc {
 			doc = e.BuildDoc(s.Doc)
 			if doc == nil {
 				doc = &didtypes.DIDDocument{}
